@@ -138,7 +138,7 @@ def insertion_cost(namespace):
     indent = 0
     node = namespace
     while node is not None and not isinstance(node, ast.Module):
-        if (isinstance(node, ast.stmt) and (hasattr(node, 'body') or hasattr(node, 'cases'))) or isinstance(node, ast.match_case):
+        if (isinstance(node, ast.stmt) and (hasattr(node, 'body') or hasattr(node, 'cases'))) or node.__class__.__name__ == 'match_case':
             indent += 1
         node = get_parent(node)
 
